@@ -536,9 +536,9 @@ def gen_history(rng, nops, focus="mixed"):
     return ops
 
 
-def gen_adaptive(rng, nops, oidc=True, jwt=False, weights=None):
+def gen_adaptive(rng, nops, oidc=True, jwt=False, weights=None, runner=None, on_step=None):
     """generate a history against the live provider so that handles are real; returns (ops, steps)"""
-    R = Runner(oidc, jwt)
+    R = runner if runner is not None else Runner(oidc, jwt)
     ops, steps = [], []
     W = dict(authorize=20, redeem=16, parse=4, process=4, refresh=12, userinfo=9, introspect=8, revokeEp=5, revokeTok=5,
              revokeGrant=4, revokeClient=3, revokeUser=1.5, remove=2, tick=5)
@@ -559,6 +559,8 @@ def gen_adaptive(rng, nops, oidc=True, jwt=False, weights=None):
         r = R.op(o)
         ops.append(o)
         steps.append({"out": canon_outcome(r), "raw": r, "proj": R.projection()})
+        if on_step:
+            on_step(len(ops) - 1, o, r, R)
         return r
 
     while len(ops) < nops:
